@@ -238,3 +238,31 @@ func (r *Report) Finish(verifDir string, seed int64, start time.Time) int {
 	}
 	return 0
 }
+
+// borrowRules runs another property's rule set on the same loaded program and takes over the obligations of the
+// listed rules under this property's own rule ids (from → to). A rule is borrowed when it is a necessary condition
+// of both properties (e.g. the emit-buffer capacity rule of the wire format is also necessary for a full-size
+// signed frame to be written with its whole signature); the rule text says where it comes from.
+func borrowRules(c *Ctx, fromProp string, run func(*Ctx), mapping map[string]string, why string) {
+	saved := c.R
+	sub := NewReport(saved.Prop, saved.Tier)
+	c.R = sub
+	func() {
+		defer func() { c.R = saved }()
+		run(c)
+	}()
+	for from, to := range mapping {
+		txt, ok := sub.RuleText[from]
+		if !ok {
+			saved.Broken(to, "borrowed rule", "rule "+from+" of "+fromProp+" was not produced")
+			continue
+		}
+		saved.Rule(to, "(= "+from+" of "+fromProp+"; "+why+") "+txt, sub.RuleMin[from])
+	}
+	for _, o := range sub.Obls {
+		if to, ok := mapping[o.Rule]; ok {
+			o.Rule = to
+			saved.Obls = append(saved.Obls, o)
+		}
+	}
+}
